@@ -230,6 +230,7 @@ def run(rep, tier):
         independence(rep, r)
         photometry_independence(rep, r)
         photometry_independence(rep, r)
+        methods_commute(rep, r, k)
     out = drv.run(lines)
     if out is None:
         rep.tie_broken('model driver failed', drv.error)
@@ -282,6 +283,60 @@ def independence(rep, r):
             child.to_table(columns=['label', 'child_only', 'renamed'])
         except Exception as e:
             rep.violation('slice-not-independent:to_table', f'to_table failed after independent extra-property operations: {e!r}', {})
+
+
+def methods_commute(rep, r, k=0):
+    """(S) the per-source photometry METHODS (fluxfrac_radius, circular_photometry, kron_photometry) commute with indexing too, also for a
+    single-source child and for sources whose Kron aperture fell back to the minimum circular radius (third kron parameter)"""
+    from photutils.segmentation import SourceCatalog
+    from photutils.segmentation import detect_sources
+    yy, xx = np.mgrid[0:48, 0:56]
+    img = np.zeros((48, 56))
+    cells = [(x_, y_) for x_ in (9, 23, 37, 50) for y_ in (9, 24, 39)]
+    r.shuffle(cells)
+    for j, (cx, cy) in enumerate(cells[:r.randint(4, 6)]):
+        sg = 0.75 if j < 2 else r.uniform(1.5, 2.5)              # two compact sources: their Kron aperture falls back to the minimum circular radius
+        img += r.uniform(60, 120) * np.exp(-0.5 * (((xx - cx - r.uniform(-1, 1)) / sg) ** 2 + ((yy - cy - r.uniform(-1, 1)) / (sg * r.uniform(0.8, 1.0))) ** 2))
+    img += np.random.RandomState(r.randrange(2 ** 31)).normal(0, 0.05, img.shape)
+    with warnings.catch_warnings():
+        warnings.simplefilter('ignore')
+        segm = detect_sources(img, 1.0, npixels=3)
+    n = 0 if segm is None else segm.nlabels
+    if n < 3:
+        return
+    kp = (2.5, 1.4, [5.0, 3.0, 0.0][k % 3])
+
+    def fresh():
+        with warnings.catch_warnings():
+            warnings.simplefilter('ignore')
+            return SourceCatalog(img * 1.0, segm, error=np.full(img.shape, 0.4), kron_params=kp)
+    calls = [('fluxfrac_radius', (0.5,)), ('circular_photometry', (3.0,)), ('kron_photometry', ((2.0, 1.0),))]
+    with warnings.catch_warnings():
+        warnings.simplefilter('ignore')
+        par = fresh()
+        nfall = int(np.sum(np.asarray(par.kron_radius.value) == 0))
+        rep.case(('methods', n, kp, img.tobytes()[:64]), True, kind='methods-commute:' + ('min-circular-radius-fallback' if nfall else 'no-fallback'))
+        rep.probe_only += 1
+        for name, args in calls:
+            try:
+                pv = getattr(par, name)(*args)
+            except Exception as e:                              # noqa: BLE001
+                rep.violation(f'method-raises:parent:{name}:{type(e).__name__}', f'SourceCatalog.{name}{args} raised {e!r}', {'kron_params': list(kp), 'image': img.tolist()})
+                continue
+            forms = [('int', i) for i in range(n)] + [('slice', slice(1, None)), ('ints', [n - 1, 0])]
+            for kind, idx in forms:
+                try:
+                    cv = getattr(fresh()[idx], name)(*args)
+                except Exception as e:                          # noqa: BLE001
+                    rep.violation(f'method-raises:child:{name}:{type(e).__name__}', f'SourceCatalog[{idx}].{name}{args} raised {e!r} although the parent '
+                                  f'evaluates it (kron_params {kp}, Kron radius of that source {par.kron_radius[idx]})',
+                                  {'kron_params': list(kp), 'index': repr(idx), 'method': name, 'image': img.tolist()})
+                    break
+                exp = tuple(apply_index(x, kind, idx) for x in pv) if isinstance(pv, tuple) else apply_index(pv, kind, idx)
+                if canon(cv) != canon(exp):
+                    rep.violation(f'method-not-commuting:{name}', f'SourceCatalog[{idx}].{name}{args} differs from the parent rows',
+                                  {'kron_params': list(kp), 'index': repr(idx), 'method': name, 'image': img.tolist()})
+                    break
 
 
 def photometry_independence(rep, r):
